@@ -338,6 +338,24 @@ def all_routes(Fxp, mk_src, fd, r, o, routes=None, dst_history=False):
             read(d3)
         return d
 
+    def r_equal_prefilled():
+        # a destination that already holds an array with as many elements but another shape (or a scalar): the result has the shape of the SOURCE
+        x = mk_src()
+        shp = np.asarray(x.val).shape
+        n_el = int(np.prod(shp)) if shp else 1
+        other = (n_el, 1) if len(shp) == 1 else ((n_el,) if len(shp) == 2 else (1,))
+        d = dst(np.zeros(other))
+        d.equal(x)
+        return d
+
+    def r_ctor_like_modes():
+        # modes given for ONE result next to like=: the template keeps its own configuration (a second conversion like it is not affected)
+        t = dst()
+        other_r = 'floor' if r != 'floor' else 'ceil'
+        other_o = 'wrap' if o != 'wrap' else 'saturate'
+        Fxp(mk_src(), like=t, rounding=other_r, overflow=other_o)
+        return Fxp(mk_src(), like=t)
+
     def r_equal_index():
         x = mk_src()
         shp = np.asarray(x.val).shape
@@ -354,6 +372,7 @@ def all_routes(Fxp, mk_src, fd, r, o, routes=None, dst_history=False):
         'call': lambda: dst()(mk_src()),
         'set_val': lambda: dst().set_val(mk_src()),
         'equal': lambda: dst().equal(mk_src()),
+        'equal_prefilled': r_equal_prefilled, 'ctor_like_modes': r_ctor_like_modes,
         'setitem': r_setitem, 'equal_index': r_equal_index,
     }
     for name in (routes or table):
